@@ -308,6 +308,11 @@ def run(ctx):
     from .c02 import reverse_is_inverse
 
     reverse_is_inverse(ctx, "R4.8")
+    # the reconstruction also needs every source's inverse call to take back exactly what its forward call added
+    # (def-use rule of C02 / C10 on update_E / update_H and their helpers, per public source class)
+    from . import c10
+
+    c10.source_linearity(ctx, rule="R4.9", for_c02=True)
     ctx.require_count("C04", len(ctx.obligations), 35)
     ctx.trusted_base += [
         "counting-loop summary of eqxi.while_loop; recording models of jax.custom_vjp / jax.vjp (sa/driver.py)",
